@@ -17,8 +17,12 @@
 (*                   (no depth limit is configured in the recorded runs)   *)
 (*   lasso cur next  next is dropped because its call / closure stack is a *)
 (*                   lasso (nl)                                            *)
-(*   validated, nopath, sink   no effect on queue and seen                 *)
+(*   validated, nopath, sink, tuple   no effect on queue and seen          *)
 (*   end             the analysis returned: the queue is empty             *)
+(*                                                                         *)
+(* The same module validates the backward traversal of                     *)
+(* analysis/backtrace/backtrace.go (hook backtrace.VerifOnVisit) with      *)
+(* Lifo = TRUE: the work list is a stack, one traversal per entry point.   *)
 (*                                                                         *)
 (* Every action below is "the event on line l is the one the abstraction   *)
 (* allows in the current state"; the trace is accepted iff all lines are   *)
@@ -28,6 +32,8 @@
 (* never a verdict.                                                        *)
 (***************************************************************************)
 EXTENDS Naturals, Sequences, FiniteSets, TLC, Json
+
+CONSTANT Lifo    \* FALSE: the forward (taint) visitor, a FIFO queue;  TRUE: the backward (backtrace) visitor, a stack
 
 Trace == ndJsonDeserialize("vtrace.ndjson")
 
@@ -43,8 +49,10 @@ Source == /\ Ev.op = "source"
           /\ queue' = <<Ev.cur>> /\ seen' = {} /\ cur' = 0 /\ nvis' = 0
 
 Visit == /\ Ev.op = "visit"
-         /\ queue # <<>> /\ Head(queue) = Ev.cur          \* FIFO
-         /\ queue' = Tail(queue) /\ cur' = Ev.cur /\ nvis' = nvis + 1
+         /\ queue # <<>>
+         /\ IF Lifo THEN queue[Len(queue)] = Ev.cur /\ queue' = SubSeq(queue, 1, Len(queue) - 1)    \* LIFO (depth first)
+                    ELSE Head(queue) = Ev.cur /\ queue' = Tail(queue)                             \* FIFO (breadth first)
+         /\ cur' = Ev.cur /\ nvis' = nvis + 1
          /\ UNCHANGED seen
 
 Add == /\ Ev.op = "add" /\ Ev.cur = cur
@@ -60,11 +68,11 @@ Lasso == /\ Ev.op = "lasso" /\ Ev.cur = cur
          /\ Ev.nl /\ Ev.next \notin seen
          /\ UNCHANGED <<queue, seen, cur, nvis>>
 
-NoEffect == /\ Ev.op \in {"validated", "nopath", "sink"} /\ Ev.cur = cur
+NoEffect == /\ Ev.op \in {"validated", "nopath", "sink", "tuple"} /\ Ev.cur = cur
             /\ UNCHANGED <<queue, seen, cur, nvis>>
 
 End == /\ Ev.op = "end"
-       /\ queue = <<>>
+       /\ Lifo \/ queue = <<>>        \* the backward visitor may return early with an error (stack not drained)
        /\ UNCHANGED <<seen, nvis>> /\ cur' = 0 /\ queue' = <<>>
 
 Next == /\ l <= Len(Trace)
